@@ -1,15 +1,19 @@
 //! C14: histories over the public Tour / Route / RouteContext / Registry / RegistryContext API of vrp-core.
 //! A case is a history; it is executed step by step on the REAL code and the observable state is dumped after every step.
 //! Several slots (deep copies push a new slot) make aliasing between a copy and its original visible.
+//! Kind "ho": histories over InsertionContext / Solution slots: the hand-over factories (InsertionContext::new / new_empty /
+//! new_from_solution, Solution::from(InsertionContext)), keep_routes / restore and registry operations in between.
 use serde_json::{json, Value};
 use std::panic::{catch_unwind, AssertUnwindSafe};
 use std::sync::{Arc, Mutex};
 use vh::util::*;
 use vrp_core::construction::heuristics::RegistryContext;
 use vrp_core::models::common::{Schedule, TimeWindow};
-use vrp_core::models::problem::{Actor, Costs, Driver, Single};
+use vrp_core::models::problem::{Actor, Costs, Driver, SimpleActivityCost, Single};
 use vrp_core::models::solution::{Activity, Place, Registry, Route, Tour};
+use vrp_core::models::{Extras, Lock, LockDetail, LockOrder, LockPosition, Problem, Solution};
 use vrp_core::prelude::*;
+use vrp_core::rosomaxa::prelude::HeuristicSolution;
 use vrp_core::rosomaxa::utils::RandomGen;
 
 const START_TAG: usize = 0;
@@ -52,17 +56,21 @@ struct JobTable {
 }
 
 fn make_jobs(spec: &[i64]) -> JobTable {
+    make_jobs_at(spec, 0)
+}
+
+fn make_jobs_at(spec: &[i64], base: usize) -> JobTable {
     let mut jobs = vec![];
     let mut singles = vec![];
     for (j, &n) in spec.iter().enumerate() {
         if n < 2 {
-            let job = SingleBuilder::default().id(&format!("j{j}")).location(j).unwrap().build_as_job().unwrap();
+            let job = SingleBuilder::default().id(&format!("j{j}")).location(base + j).unwrap().build_as_job().unwrap();
             singles.push(vec![job.to_single().clone()]);
             jobs.push(job);
         } else {
             let mut b = MultiBuilder::default().id(&format!("j{j}"));
             for s in 0..n {
-                b = b.add_job(SingleBuilder::default().id(&format!("j{j}s{s}")).location(j).unwrap().build().unwrap());
+                b = b.add_job(SingleBuilder::default().id(&format!("j{j}s{s}")).location(base + j).unwrap().build().unwrap());
             }
             let multi = b.build().unwrap();
             singles.push(multi.jobs.clone());
@@ -405,10 +413,285 @@ fn run_reg(case: &Value) -> Value {
     json!({"steps": steps, "stop": panic, "final": fin})
 }
 
+
+// ------------------------------------------------------------------------------------------------ hand-over
+enum HSlot {
+    Ctx(InsertionContext),
+    Sol(Solution),
+}
+
+fn enc_route(actors: &Actors, table: &JobTable, route: &Route) -> Value {
+    let mut v = vec![json!(actors.id(&route.actor)), json!(route.tour.has_jobs() as usize)];
+    v.extend(route.tour.all_activities().map(|a| enc_act(table, a)));
+    json!(v)
+}
+
+fn dump_ho(actors: &Actors, table: &JobTable, random: &ScriptRandom, slot: &HSlot) -> Value {
+    let (kind, reg) = match slot {
+        HSlot::Ctx(ctx) => (0, ctx.solution.registry.resources()),
+        HSlot::Sol(sol) => (1, &sol.registry),
+    };
+    let mut avail: Vec<usize> = reg.available().map(|a| actors.id(&a)).collect();
+    avail.sort();
+    let all: Vec<usize> = reg.all().map(|a| actors.id(&a)).collect();
+    match slot {
+        HSlot::Ctx(ctx) => {
+            let routes: Vec<Value> = ctx.solution.routes.iter().map(|rc| enc_route(actors, table, rc.route())).collect();
+            // get_route for every actor on a copy of the registry: which actors are handed out, and is the route fresh
+            let mut copy = ctx.solution.registry.deep_copy();
+            let mut gettable = vec![];
+            let mut stale = vec![];
+            for (i, a) in actors.all.iter().enumerate() {
+                if let Some(rc) = copy.get_route(a) {
+                    gettable.push(i);
+                    if actors.id(&rc.route().actor) != i || rc.route().tour.job_count() != 0 {
+                        stale.push(i);
+                    }
+                }
+            }
+            *random.mode.lock().unwrap() = 0;
+            random.calls.lock().unwrap().clear();
+            let next: Vec<usize> = ctx
+                .solution
+                .registry
+                .next_route()
+                .map(|rc| {
+                    assert!(rc.route().tour.job_count() == 0, "prototype route is not empty");
+                    actors.id(&rc.route().actor)
+                })
+                .collect();
+            let draws: Vec<Value> = random.calls.lock().unwrap().iter().map(|&(a, b)| json!([a, b])).collect();
+            json!({"kind": kind, "avail": avail, "all": all, "routes": routes, "gettable": gettable, "stale": stale,
+                   "next": next, "draws": draws})
+        }
+        HSlot::Sol(sol) => {
+            let routes: Vec<Value> = sol.routes.iter().map(|r| enc_route(actors, table, r)).collect();
+            json!({"kind": kind, "avail": avail, "all": all, "routes": routes, "gettable": [], "stale": [], "next": [], "draws": []})
+        }
+    }
+}
+
+/// a copy of a solution made of the deep copies of its registry and routes (Solution is consumed by new_from_solution)
+fn copy_solution(sol: &Solution) -> Solution {
+    Solution {
+        cost: sol.cost,
+        registry: sol.registry.deep_copy(),
+        routes: sol.routes.iter().map(|r| r.deep_copy()).collect(),
+        unassigned: vec![],
+        telemetry: None,
+    }
+}
+
+fn ho_step(
+    problem: &Arc<Problem>,
+    env: &Arc<Environment>,
+    actors: &Actors,
+    table: &JobTable,
+    random: &ScriptRandom,
+    slots: &mut Vec<HSlot>,
+    op: &Value,
+) -> (usize, usize, Value) {
+    let name = op[0].as_str().unwrap();
+    let k = usize_of(&op[1]);
+    let mut extra = json!({});
+    let ret = match name {
+        "getpush" => {
+            let a = actors.all[usize_of(&op[2])].clone();
+            let HSlot::Ctx(ctx) = &mut slots[k] else { panic!("getpush on a solution") };
+            match ctx.solution.registry.get_route(&a) {
+                Some(rc) => {
+                    extra = json!({"route_actor": actors.id(&rc.route().actor), "route_jobs": rc.route().tour.job_count()});
+                    ctx.solution.routes.push(rc);
+                    1
+                }
+                None => 0,
+            }
+        }
+        "use" => {
+            let a = actors.all[usize_of(&op[2])].clone();
+            (match &mut slots[k] {
+                HSlot::Ctx(ctx) => ctx.solution.registry.use_route(&RouteContext::new(a.clone())),
+                HSlot::Sol(sol) => sol.registry.use_actor(&a),
+            }) as usize
+        }
+        "free" => {
+            let a = actors.all[usize_of(&op[2])].clone();
+            (match &mut slots[k] {
+                HSlot::Ctx(ctx) => ctx.solution.registry.free_route(RouteContext::new(a.clone())),
+                HSlot::Sol(sol) => sol.registry.free_actor(&a),
+            }) as usize
+        }
+        "get" => {
+            let a = actors.all[usize_of(&op[2])].clone();
+            let HSlot::Ctx(ctx) = &mut slots[k] else { panic!("get on a solution") };
+            match ctx.solution.registry.get_route(&a) {
+                Some(mut rc) => {
+                    extra = json!({"route_actor": actors.id(&rc.route().actor), "route_jobs": rc.route().tour.job_count()});
+                    rc.route_mut().tour.insert_last(new_activity(Some(table.singles[0][0].clone()), 0, 9));
+                    1
+                }
+                None => 0,
+            }
+        }
+        "next" => {
+            *random.mode.lock().unwrap() = i64_of(&op[2]);
+            random.calls.lock().unwrap().clear();
+            let HSlot::Ctx(ctx) = &slots[k] else { panic!("next on a solution") };
+            let next: Vec<usize> = ctx.solution.registry.next_route().map(|rc| actors.id(&rc.route().actor)).collect();
+            let draws: Vec<Value> = random.calls.lock().unwrap().iter().map(|&(a, b)| json!([a, b])).collect();
+            extra = json!({"next": next, "draws": draws});
+            0
+        }
+        "last" => {
+            let (i, j, tag) = (usize_of(&op[2]), usize_of(&op[3]), usize_of(&op[4]));
+            let act = new_activity(Some(table.singles[j][0].clone()), 0, tag);
+            match &mut slots[k] {
+                HSlot::Ctx(ctx) => ctx.solution.routes[i].route_mut().tour.insert_last(act),
+                HSlot::Sol(sol) => sol.routes[i].tour.insert_last(act),
+            };
+            0
+        }
+        "rm" => {
+            let (i, j) = (usize_of(&op[2]), usize_of(&op[3]));
+            (match &mut slots[k] {
+                HSlot::Ctx(ctx) => ctx.solution.routes[i].route_mut().tour.remove(&table.jobs[j]),
+                HSlot::Sol(sol) => sol.routes[i].tour.remove(&table.jobs[j]),
+            }) as usize
+        }
+        "keep" => {
+            let keep: Vec<usize> = i64s_of(&op[2]).iter().map(|&g| g as usize).collect();
+            let HSlot::Ctx(ctx) = &mut slots[k] else { panic!("keep on a solution") };
+            ctx.solution.keep_routes(&|rc| keep.contains(&actors.id(&rc.route().actor)));
+            0
+        }
+        "restore" => {
+            let HSlot::Ctx(ctx) = &mut slots[k] else { panic!("restore on a solution") };
+            ctx.restore();
+            0
+        }
+        "add" => {
+            let a = actors.all[usize_of(&op[2])].clone();
+            let HSlot::Sol(sol) = &mut slots[k] else { panic!("add on a context") };
+            sol.routes.push(Route { actor: a.clone(), tour: Tour::new(&a) });
+            0
+        }
+        "fromsol" => {
+            let HSlot::Sol(sol) = &slots[k] else { panic!("fromsol on a context") };
+            let ctx = InsertionContext::new_from_solution(problem.clone(), (copy_solution(sol), None), env.clone());
+            slots.push(HSlot::Ctx(ctx));
+            return (slots.len() - 1, slots.len() - 1, extra);
+        }
+        "into" => {
+            let HSlot::Ctx(ctx) = &slots[k] else { panic!("into on a solution") };
+            let sol: Solution = ctx.deep_copy().into();
+            slots.push(HSlot::Sol(sol));
+            return (slots.len() - 1, slots.len() - 1, extra);
+        }
+        "copy" => {
+            let c = match &slots[k] {
+                HSlot::Ctx(ctx) => HSlot::Ctx(ctx.deep_copy()),
+                HSlot::Sol(sol) => HSlot::Sol(copy_solution(sol)),
+            };
+            slots.push(c);
+            return (slots.len() - 1, slots.len() - 1, extra);
+        }
+        _ => panic!("unknown hand-over op"),
+    };
+    (ret, k, extra)
+}
+
+fn panic_text(e: Box<dyn std::any::Any + Send>) -> String {
+    e.downcast_ref::<&str>().map(|s| s.to_string()).or_else(|| e.downcast_ref::<String>().cloned()).unwrap_or("panic".into())
+}
+
+fn run_ho(case: &Value) -> Value {
+    let groups: Vec<usize> = i64s_of(&case["groups"]).iter().map(|&g| g as usize).collect();
+    let closed = case["closed"].as_bool().unwrap();
+    let spec: Vec<(usize, Vec<usize>)> = case["fleet"]
+        .as_array()
+        .unwrap()
+        .iter()
+        .map(|v| (usize_of(&v[0]), i64s_of(&v[1]).iter().map(|&d| d as usize).collect()))
+        .collect();
+    let fleet = Arc::new(make_fleet(&spec, closed));
+    assert!(fleet.actors.len() == groups.len(), "fleet spec and groups disagree");
+    let foreign = make_fleet(&[(0, vec![0]), (1, vec![0]), (0, vec![0])], closed);
+    let actors = Actors { all: fleet.actors.iter().chain(foreign.actors.iter()).cloned().collect() };
+    let random = Arc::new(ScriptRandom { mode: Mutex::new(0), calls: Mutex::new(vec![]) });
+    let table = make_jobs_at(&vec![0; usize_of(&case["nj"])], 100);
+
+    // a minimal real Problem: the fleet, single jobs, a goal without state, a zero matrix, locks selecting one actor each
+    let transport: Arc<dyn TransportCost> = Arc::new(SimpleTransportCost::new(vec![0.], vec![0.]).unwrap());
+    let logger: InfoLogger = Arc::new(|_| {});
+    let jobs = Arc::new(Jobs::new(fleet.as_ref(), table.jobs.clone(), transport.as_ref(), &logger).unwrap());
+    let locks: Vec<Arc<Lock>> = match case["init"].as_array() {
+        Some(ls) => ls
+            .iter()
+            .map(|l| {
+                let addr = Arc::as_ptr(&actors.all[usize_of(&l[0])]) as usize;
+                let lock_jobs: Vec<Job> = i64s_of(&l[2]).iter().map(|&j| table.jobs[j as usize].clone()).collect();
+                let detail = LockDetail::new(LockOrder::Strict, LockPosition::Any, lock_jobs);
+                Arc::new(Lock::new(Arc::new(move |a: &Actor| a as *const Actor as usize == addr), vec![detail], i64_of(&l[1]) != 0))
+            })
+            .collect(),
+        None => vec![],
+    };
+    let no_locks = locks.is_empty();
+    let problem = Arc::new(Problem {
+        fleet: fleet.clone(),
+        jobs,
+        locks,
+        goal: Arc::new(make_goal()),
+        activity: Arc::new(SimpleActivityCost::default()),
+        transport,
+        extras: Arc::new(Extras::default()),
+    });
+    let random_dyn: Arc<dyn Random> = random.clone();
+    let env = Arc::new(Environment { random: random_dyn.clone(), ..Environment::default() });
+
+    let first = catch_unwind(AssertUnwindSafe(|| {
+        if case["init"].is_null() {
+            HSlot::Sol(Solution {
+                cost: 0.,
+                registry: Registry::new(&fleet, random_dyn.clone()),
+                routes: vec![],
+                unassigned: vec![],
+                telemetry: None,
+            })
+        } else if no_locks && case["empty"].as_bool().unwrap_or(false) {
+            HSlot::Ctx(InsertionContext::new_empty(problem.clone(), env.clone()))
+        } else {
+            HSlot::Ctx(InsertionContext::new(problem.clone(), env.clone()))
+        }
+    }));
+    let mut slots = match first {
+        Ok(s) => vec![s],
+        Err(e) => return json!({"init": null, "steps": [], "stop": panic_text(e), "final": []}),
+    };
+    let init = dump_ho(&actors, &table, &random, &slots[0]);
+    let mut steps = vec![];
+    let mut panic: Option<String> = None;
+    for op in case["ops"].as_array().unwrap() {
+        let res = catch_unwind(AssertUnwindSafe(|| ho_step(&problem, &env, &actors, &table, &random, &mut slots, op)));
+        match res {
+            Ok((ret, k, extra)) => {
+                steps.push(json!({"ret": ret, "dump": dump_ho(&actors, &table, &random, &slots[k]), "extra": extra}))
+            }
+            Err(e) => {
+                panic = Some(panic_text(e));
+                break;
+            }
+        }
+    }
+    let fin: Vec<Value> = if panic.is_none() { slots.iter().map(|s| dump_ho(&actors, &table, &random, s)).collect() } else { vec![] };
+    json!({"init": init, "steps": steps, "stop": panic, "final": fin})
+}
+
 pub fn run_case(case: &Value) -> Value {
     match case["kind"].as_str().unwrap() {
         "tour" => run_tour(case),
         "reg" => run_reg(case),
+        "ho" => run_ho(case),
         _ => panic!("unknown kind"),
     }
 }
